@@ -13,3 +13,9 @@ PROPS['C02'] = dict(
        'narrowness, filter kind and sampling geometry for every image a raw routine reads; that each routine is registered only for layouts of one depth/channel order; that the chain ends in catch-alls; that the '
        'fast-path cache key covers all seven members; that blt/fill primitives return FALSE only before writing and that no caller drops that status unless its table rows guarantee the depth. Necessary conditions of implementation equivalence; the pixel arithmetic of the routines is not decided.',
   note='Trusted: clang-14 IR = built program; the licence predicate (closed list of flag shapes) transcribed from pixman-private.h semantics and calibrated to 0 deviations on the pinned tree. Non-x86 SIMD units are not compiled by this build and not analysed.')
+PROPS['C14'] = dict(
+  technique='static analysis: computed derived/input field sets of the validate closure, must-pass-through (every input write reaches a dirty mark), who-may-write, guard-completeness of early returns, reference/counter pairing',
+  text='Computes from the IR the closure V of the validate function, the image fields V writes (derived) and reads (inputs). Decides that every write of an input outside V and outside constructors is followed on all paths by a store of non-zero to common.dirty; '
+       'that derived fields are written only in V or on fresh objects and dirty is cleared only after recomputation; that every no-store return of an exported setter compares each stored parameter with its field (or is a rejection/refusal); '
+       'that the fast-path cache key is complete; that alpha_count moves with the alpha-map reference. These decide "no setter leaves stale derived state behind" structurally for every path, not for sampled histories.',
+  note='Trusted: clang-14 IR = built program. Not decided: that compute_image_info derives the right flags from the inputs; histories as such.')
